@@ -52,6 +52,28 @@ func (c16) Gen(r *Rng, tier string, emit func(string, Tok)) {
 			emit("concurrent", L(I(3), I(int64(g)), I(int64(r.Intn(1<<30)))))
 		}
 	}
+	// several Demuxers in one process, one after the other (mode 0) or in goroutines that give way at every Read
+	// (mode 1), each compared with the model's run of its own scenario alone: packet size detection on streams of
+	// different packet sizes, streams shorter than the detection window, reads in small chunks
+	for k := 0; k < scale(tier, 24, 200); k++ {
+		g := r.Range(2, 6)
+		var scs []Tok
+		for j := 0; j < g; j++ {
+			m := genRefStream(r, streamOpts{PESPIDs: r.Range(1, 2), UnitsPerPID: r.Range(1, 3), MaxPES: 400, Tables: r.Bool()})
+			data := m.bytes()
+			switch r.Intn(4) {
+			case 0:
+				data = widen(data, []int{4, 16}[r.Intn(2)], r)
+			case 1:
+				data = data[:r.Range(1, 192)] // shorter than the detection window
+			case 2:
+				data = data[:188]
+			}
+			kind := r.Intn(3)
+			scs = append(scs, scenario{kind: kind, optSize: 0, fault: -1, chunks: []int{r.Range(1, 100), r.Range(1, 100)}, data: data, ops: []int{[]int{3, 4}[r.Intn(2)]}}.tok())
+		}
+		emit([]string{"sequence-of-demuxers", "interleaved-demuxers"}[k%2], L(I(4), I(int64(k%2)), L(scs...)))
+	}
 }
 
 func (c16) Run(c Tok) Tok {
@@ -103,6 +125,40 @@ func (c16) Run(c Tok) Tok {
 		return L(muxObservation(calls), I(int64(ok)))
 	case 3:
 		return I(int64(concurrentOK(int(c.At(1).Int()), uint64(c.At(2).Int()))))
+	case 4:
+		scs := c.At(2).L
+		out := make([]Tok, len(scs))
+		// a second run of the same scenarios one after the other in the opposite order: what a Demuxer delivers must
+		// not depend on which other Demuxers were used before it or alongside it
+		rev := make([]Tok, len(scs))
+		runRev := func() {
+			for i := len(scs) - 1; i >= 0; i-- {
+				rev[i] = runScenario(scenarioOf(scs[i])).observation()
+			}
+		}
+		if c.At(1).Int() == 0 {
+			for i := range scs {
+				out[i] = runScenario(scenarioOf(scs[i])).observation()
+			}
+			runRev()
+			return L(L(out...), L(rev...))
+		}
+		yieldInRead.Store(true)
+		var wg sync.WaitGroup
+		start := make(chan struct{})
+		for i := range scs {
+			wg.Add(1)
+			go func(i int) {
+				defer wg.Done()
+				<-start
+				out[i] = runScenario(scenarioOf(scs[i])).observation()
+			}(i)
+		}
+		close(start)
+		wg.Wait()
+		yieldInRead.Store(false)
+		runRev()
+		return L(L(out...), L(rev...))
 	}
 	return L()
 }
@@ -176,6 +232,13 @@ func (c16) Oracle(c Tok, obs Tok) string {
 	case 2:
 		if obs.At(1).Int() != 1 {
 			return "the Muxer modified the caller's payload bytes"
+		}
+	case 4:
+		a, b := obs.At(0), obs.At(1)
+		for i := range a.L {
+			if i < len(b.L) && a.L[i].String() != b.L[i].String() {
+				return fmt.Sprintf("demuxer %d of %d delivers different results depending on the other demuxers of the process (run %s / run last-to-first one after the other)", i, len(a.L), []string{"first-to-last one after the other", "interleaved in goroutines"}[c.At(1).Int()])
+			}
 		}
 	case 3:
 		if obs.Int() != 1 {
